@@ -153,23 +153,22 @@ def with_solves(events, names, rng, only=None):
 
 
 def history_cases(singles, names, rng, tier):
-    """Every single constraint again as the LAST manager of a process in which 2-3 other managers encoded
-    other inequalities before (orders: all permutations in thorough, one sampled in quick)."""
+    """A sample of the single constraints again as the LAST manager of a process in which 2-3 other managers
+    encoded other inequalities before.  quick: 1500 diagram-reaching constraints, one order of the earlier
+    encodings each; thorough: 6000 of them in EVERY order of the 2-3 earlier encodings, plus 1500 others."""
     pool = [c for c in singles if reaches_diagram(c) and len(c["terms"]) >= 2]
     if not pool:
         return []
+    probes = rng.sample(pool, min(len(pool), 1500 if tier == "quick" else 6000))
+    if tier == "thorough":
+        rest = [c for c in singles if c["kind"] in ("pb", "amo") and not reaches_diagram(c)]
+        probes += rng.sample(rest, min(len(rest), 1500))
     out = []
-    for c in singles:
-        if c["kind"] not in ("pb", "amo"):
-            continue
-        if tier == "quick" and not reaches_diagram(c):
-            continue
+    for c in probes:
         hs = rng.sample(pool, min(len(pool), rng.choice([2, 3])))
         orders = list(itertools.permutations(hs))
-        if tier == "quick":
+        if tier == "quick" or not reaches_diagram(c):
             orders = [rng.choice(orders)]
-        elif not reaches_diagram(c):
-            orders = orders[:1]
         for order in orders:
             ev = []
             for i, h in enumerate(order):
@@ -178,7 +177,7 @@ def history_cases(singles, names, rng, tier):
             m = len(order) + 1
             ev.append({"ev": "new", "m": m, "c": dict(BLANK)})
             ev.append({"ev": "post", "m": m, "c": c})
-            out.append({"vars": names, "detail": 1, "events": with_solves(ev, names, rng, only=m), "src": "history"})
+            out.append(json.dumps({"vars": names, "detail": 1, "events": with_solves(ev, names, rng, only=m), "src": "history"}))
     return out
 
 
@@ -331,7 +330,7 @@ def run(ctx: Ctx) -> int:
     small, big, singles, wide_names = [], [], [], []
     for name, kinds in cfgs:
         hs = _mc(ctx, f"SatLayer_{tier}_{name}", kinds)
-        names = V7 if name.startswith("amo") else V7[:2] if (name, tier) == ("wide", "quick") else V7[:3]
+        names = (V7[:6] if tier == "quick" else V7) if name.startswith("amo") else V7[:2] if (name, tier) == ("wide", "quick") else V7[:3]
         for h in hs:
             (big if len(names) > 3 else small).append(
                 json.dumps({"vars": names, "detail": 1, "events": with_solves(h["events"], names, rng), "src": name}))
@@ -340,10 +339,8 @@ def run(ctx: Ctx) -> int:
         del hs
     n_tlc = len(small) + len(big)
     hist = history_cases(singles, wide_names, rng, tier)
-    if tier == "quick":
-        hist = rng.sample(hist, min(len(hist), 1500))
-    rnd = random_cases(rng, 1500 if tier == "quick" else 30000)
-    ntr = decide(ctx, small + [json.dumps(c) for c in hist], "SatTrace3")
+    rnd = random_cases(rng, 1500 if tier == "quick" else 20000)
+    ntr = decide(ctx, small + hist, "SatTrace3")
     ntr += decide(ctx, big + [json.dumps(c) for c in rnd], "SatTrace")
     ctx.extra["cases_from_tlc"] = n_tlc
     ctx.extra["history_cases"] = len(hist)
